@@ -257,7 +257,7 @@ func (x *c03) loopbackReceive(kind string, stream []byte, sizes []int, lim int64
 }
 
 func (x *c03) loopbackReceiveFrag(kind string, stream []byte, sizes []int, lim int64, textAt int, clean bool, sent []packet.Generic, frag int) {
-	x.n++
+	x.bump()
 	n := x.n
 	c := x.c
 	conn, peer, stop, err := pairFrag(kind, frag)
@@ -358,7 +358,7 @@ func (x *c03) loopbackReceiveFrag(kind string, stream []byte, sizes []int, lim i
 
 // send side: a real connection sends, the raw peer collects the bytes
 func (x *c03) loopbackSend(kind string, ps []packet.Generic, asyncs []bool, delay time.Duration) {
-	x.n++
+	x.bump()
 	n := x.n
 	c := x.c
 	conn, peer, stop, err := pair(kind)
@@ -412,6 +412,11 @@ func (x *c03) loopbackQuick() {
 	c := x.c
 	r := c.Rng
 	x.loopbackLimit()
+	// everything buffered (the flush delay never elapses), then Close: the peer reads exactly the encodings
+	for _, kind := range []string{"ws", "tcp"} {
+		ps := []packet.Generic{genPacket(r, 2, 20), genPacket(r, 7, 2), publishOfLen(r, 3000), &packet.Disconnect{}}
+		x.loopbackSend(kind, ps, []bool{true, true, true, true}, time.Hour)
+	}
 	small := func(k int) []packet.Generic {
 		var ps []packet.Generic
 		for ; k > 0; k-- {
@@ -484,7 +489,7 @@ func (x *c03) loopbackQuick() {
 // WebSocket message); the accepting side has read limit lim.  Judged directly (every packet
 // fits the limit: all must arrive, in order) and by the model over the concatenated bytes.
 func (x *c03) loopbackLibrarySender(kind string, ps []packet.Generic, asyncs []bool, lim int64) {
-	x.n++
+	x.bump()
 	n := x.n
 	c := x.c
 	cl, srv, stop, err := connPair(kind)
@@ -672,7 +677,7 @@ func (x *c03) loopbackCases() {
 // closeFlushesReal: over a real pair, k buffered sends under a flush delay that never elapses, the
 // last one a DISCONNECT, then Close: the peer must receive every one of them, in order.
 func (x *c03) closeFlushesReal(kind string, k int) {
-	x.n++
+	x.bump()
 	n := x.n
 	c := x.c
 	c.Emit("case %d closereal kind=%s k=%d", n, kind, k)
@@ -730,16 +735,71 @@ func (x *c03) closeFlushesReal(kind string, k int) {
 	c.Stat("loopback_runs", 1)
 }
 
+// closeUnblocksReceive: over a real pair whose peer stays connected and silent, a Receive is
+// pending; Close from another goroutine must make it return (nobody else will), and afterwards
+// Send / Receive fail at once.
+func (x *c03) closeUnblocksReceive(kind string) {
+	x.bump()
+	n := x.n
+	c := x.c
+	c.Emit("case %d closeunblocks kind=%s", n, kind)
+	conn, peer, stop, err := pair(kind)
+	if err != nil {
+		x.unavailable(n, kind, err)
+		return
+	}
+	defer stop()
+	defer peer.close(false)
+	pend := make(chan error, 1)
+	go func() { defer recoverNote(); _, e := conn.Receive(); pend <- e }()
+	time.Sleep(5 * time.Millisecond) // let it get into the carrier read
+	var cerr error
+	if !call(func() { cerr = conn.Close() }) {
+		c.Emit("direct c19_nohang %d FAIL over %s: Close with a Receive pending did not return", n, kind)
+		return
+	}
+	msg := ""
+	select {
+	case e := <-pend:
+		if e == nil {
+			msg = "the pending Receive returned a packet nobody sent"
+		}
+	case <-time.After(hangLimit):
+		c.Emit("direct c19_nohang %d FAIL over %s: a Receive pending when Close was called is still blocked %s after Close returned (%v), the peer being connected and silent", n, kind, hangLimit, cerr)
+		return
+	}
+	var e1, e2 error
+	if !call(func() { e1 = conn.Send(&packet.Pingreq{}, false) }) || !call(func() { _, e2 = conn.Receive() }) {
+		c.Emit("direct c19_nohang %d FAIL over %s: a call after Close did not return", n, kind)
+		return
+	}
+	if msg == "" && e1 == nil {
+		msg = "flushed Send after Close returned nil"
+	}
+	if msg == "" && e2 == nil {
+		msg = "Receive after Close returned nil"
+	}
+	if msg != "" {
+		c.Emit("direct c19_after_close %d FAIL over %s: %s", n, kind, msg)
+	} else {
+		c.Emit("direct c19_after_close %d ok", n)
+		c.Emit("direct c19_nohang %d ok", n)
+	}
+	c.Stat("after_close_checks", 1)
+	c.Stat("loopback_runs", 1)
+}
+
 func (x *c03) loopbackC19(runs int) {
 	c := x.c
 	r := c.Rng
 	for _, kind := range []string{"ws", "tcp"} {
+		x.closeUnblocksReceive(kind)
 		x.closeFlushesReal(kind, 1)
 		x.closeFlushesReal(kind, 6)
 	}
 	for i := 0; i < runs; i++ {
 		kind := []string{"tcp", "ws"}[i%2]
-		x.n++
+		x.bump()
 		n := x.n
 		a, b, stop, err := connPair(kind)
 		if err != nil {
@@ -791,15 +851,27 @@ func (x *c03) loopbackC19(runs int) {
 				}
 			}()
 		}
+		// a Receive is pending on the sending side the whole time (its peer never sends): Close must unblock it
+		pend := make(chan error, 1)
+		go func() { defer recoverNote(); _, e := a.Receive(); pend <- e }()
 		ok := call(wg.Wait)
 		var cerr error
 		ok = ok && call(func() { cerr = a.Close() })
+		msg := ""
+		select {
+		case e := <-pend:
+			if e == nil {
+				msg = "a Receive that was pending when Close was called returned a packet nobody sent"
+			}
+		case <-time.After(hangLimit):
+			c.Emit("direct c19_nohang %d FAIL over %s: a Receive pending when Close was called is still blocked %s after Close returned (%v)", n, kind, hangLimit, cerr)
+			ok = false
+		}
 		select {
 		case <-rdone:
 		case <-time.After(hangLimit):
 			ok = false
 		}
-		msg := ""
 		// after close on a real carrier
 		var e1 error
 		ok = ok && call(func() { e1 = a.Send(senderPacket(99, 0, 1), false) })
